@@ -1,16 +1,19 @@
 /-
 Layer B of C01/C13/C09, part 1: the capability strings of the draw path in their standard ECMA-48 forms.
 
-* `XtermLike ti` — decidable class of terminal descriptions whose draw-path capabilities are (one of a few) standard
-  ECMA-48 forms; `Tcell.Props.C01B.db_xtermlike` lists the entries of the regenerated database in the class.
+* `XtermLike ti` — decidable class of terminal descriptions whose draw-path capabilities are, once TPuts has removed
+  their padding (`tp_strip`), one of a few standard ECMA-48 forms — or absent where the library tolerates it;
+  `Tcell.Props.C01B.db_layerB` lists the entries of the regenerated database in the class (41 of 49).
 * closed forms of the TParm expansions of the parameterised strings of the class, for ALL parameter values
-  (`parm_cup`, `parm_setaf256`, `parm_setab256`, `parm_setfgbg256`, `parm_setafBasic`, …, `parm_rgb…`, `parm_ul…`),
+  (`parm_cup`, `parm_cup_pad`, `parm_setaf256`, `parm_setab256`, `parm_setfgbg256`, `parm_setafBasic`, `parm_setafAdd`,
+  `parm_setafExt`, `parm_setafColon`, …, `parm_rgb…`, `parm_ul…`),
   stated with the decimal renderer `Ecma48.dec` the emulator lemmas use;
 * `tp_clean`: TPuts is the identity on strings without `$`.
 -/
 import Tcell.Model.Render
 import Tcell.Lemmas.TParm
 import Tcell.Spec.Ecma48Lemmas
+import Tcell.Lemmas.Cup
 namespace Tcell.LayerB
 open Tcell Tcell.TParm Tcell.Spec.Ecma48
 
@@ -305,42 +308,276 @@ theorem parm_ulRGB (r g b : Nat) :
   have d58 : dec 58 = [53, 56] := by decide
   rw [this, itoa_nat, itoa_nat, itoa_nat]; simp [csiSeq, ulRGBBody, d58]
 
+/-! ## padding: what TPuts writes -/
+
+open Tcell.Spec.TermCaps (stripPadding)
+
+/-- **TPuts writes the string with its padding specifications removed** (C15 `tputs_spec`; terminfo.go:596-644 sleeps instead
+    of writing pad characters) -/
+theorem tp_strip (c : RenderCfg) (s : Bytes) : Render.tp c s = stripPadding s := by
+  have := TPuts.tputsAux_bytes c.ti.padChar (s.length + 1) s {} (Nat.lt_succ_self _)
+  simpa [Render.tp, TPuts.tputs, TPuts.tputsV, TPuts.currentStrict] using this
+
+/-- a clean string followed by padding -/
+theorem tp_padded (c : RenderCfg) (s pad : Bytes) (h : ∀ b ∈ s, b ≠ 36) (hp : stripPadding pad = []) :
+    Render.tp c (s ++ pad) = s := by
+  rw [tp_strip, TPuts.strip_append_no36 s pad h, hp, List.append_nil]
+
+/-! ## more standard forms -/
+
+/-- `cup` followed by the padding the DEC entries carry: `$<5>` (vt100, vt102), `$<10>` (vt420) -/
+def pad5 : Bytes := [36,60,53,62]
+def pad10 : Bytes := [36,60,49,48,62]
+def cupPads : List Bytes := [[], pad5, pad10]
+
+set_option maxRecDepth 4000 in
+theorem parm_cup5_int (row col : Int) :
+    parm (cupStd ++ pad5) (ints [row, col]) = [27, 91] ++ itoa (wrap64 (row + 1)) ++ [59] ++ itoa (wrap64 (col + 1)) ++ [72] ++ pad5 := by
+  simp [parm, ints, tparm, tparmV, cupStd, pad5, run, step, execOp, pad9, put, popInt, hd0, isDigit, incParam, Value.toInt, List.modify]
+
+set_option maxRecDepth 4000 in
+theorem parm_cup10_int (row col : Int) :
+    parm (cupStd ++ pad10) (ints [row, col]) = [27, 91] ++ itoa (wrap64 (row + 1)) ++ [59] ++ itoa (wrap64 (col + 1)) ++ [72] ++ pad10 := by
+  simp [parm, ints, tparm, tparmV, cupStd, pad10, run, step, execOp, pad9, put, popInt, hd0, isDigit, incParam, Value.toInt, List.modify]
+
+/-- **cup with any of the paddings of the class**: the expansion is the standard one followed by the padding -/
+theorem parm_cup_pad (pad : Bytes) (hp : pad ∈ cupPads) (r c : Nat) (hr : (r : Int) + 1 < maxInt64) (hc : (c : Int) + 1 < maxInt64) :
+    parm (cupStd ++ pad) (ints [(r : Int), (c : Int)]) = csiSeq (dec (r + 1) ++ 0x3b :: dec (c + 1)) 0x48 ++ pad := by
+  have e1 : ((r : Int) + 1) = ((r + 1 : Nat) : Int) := by omega
+  have e2 : ((c : Int) + 1) = ((c + 1 : Nat) : Int) := by omega
+  simp only [cupPads, List.mem_cons, List.not_mem_nil, or_false] at hp
+  rcases hp with rfl | rfl | rfl
+  · rw [List.append_nil, List.append_nil]; exact parm_cup r c hr hc
+  · rw [parm_cup5_int, wrap64_small _ (by omega) hr, wrap64_small _ (by omega) hc, e1, e2, itoa_nat, itoa_nat]; simp [csiSeq]
+  · rw [parm_cup10_int, wrap64_small _ (by omega) hr, wrap64_small _ (by omega) hc, e1, e2, itoa_nat, itoa_nat]; simp [csiSeq]
+
+/-- Eterm's 8-colour strings: `ESC [ %p1 %{30} %+ %d m`, `ESC [ %p1 %'(' %+ %d m` and both in one sequence -/
+def setafAdd : Bytes := [27, 91, 37, 112, 49, 37, 123, 51, 48, 125, 37, 43, 37, 100, 109]
+def setabAdd : Bytes := [27, 91, 37, 112, 49, 37, 39, 40, 39, 37, 43, 37, 100, 109]
+def setfgbgAdd : Bytes :=
+  [27, 91, 37, 112, 49, 37, 123, 51, 48, 125, 37, 43, 37, 100, 59, 37, 112, 50, 37, 39, 40, 39, 37, 43, 37, 100, 109]
+/-- rxvt-unicode's palette strings: always the extended form `ESC [ 38;5; %p1 %d m` / `48;5;` / both -/
+def setafExt : Bytes := [27, 91, 51, 56, 59, 53, 59, 37, 112, 49, 37, 100, 109]
+def setabExt : Bytes := [27, 91, 52, 56, 59, 53, 59, 37, 112, 49, 37, 100, 109]
+def setfgbgExt : Bytes := [27, 91, 51, 56, 59, 53, 59, 37, 112, 49, 37, 100, 59, 52, 56, 59, 53, 59, 37, 112, 50, 37, 100, 109]
+/-- foot's palette strings: the conditionals of the 256-colour form with the colon form `38:5:n` / `48:5:n` in the last branch -/
+def setafColon : Bytes :=
+  [27,91,37,63,37,112,49,37,123,56,125,37,60,37,116,51,37,112,49,37,100,37,101,37,112,49,37,123,49,54,125,
+   37,60,37,116,57,37,112,49,37,123,56,125,37,45,37,100,37,101,51,56,58,53,58,37,112,49,37,100,37,59,109]
+def setabColon : Bytes :=
+  [27,91,37,63,37,112,49,37,123,56,125,37,60,37,116,52,37,112,49,37,100,37,101,37,112,49,37,123,49,54,125,
+   37,60,37,116,49,48,37,112,49,37,123,56,125,37,45,37,100,37,101,52,56,58,53,58,37,112,49,37,100,37,59,109]
+def setfgbgColon : Bytes :=
+  [27,91,37,63,37,112,49,37,123,56,125,37,60,37,116,51,37,112,49,37,100,37,101,37,112,49,37,123,49,54,125,
+   37,60,37,116,57,37,112,49,37,123,56,125,37,45,37,100,37,101,51,56,58,53,58,37,112,49,37,100,37,59,59,
+   37,63,37,112,50,37,123,56,125,37,60,37,116,52,37,112,50,37,100,37,101,37,112,50,37,123,49,54,125,
+   37,60,37,116,49,48,37,112,50,37,123,56,125,37,45,37,100,37,101,52,56,58,53,58,37,112,50,37,100,37,59,109]
+
+set_option maxRecDepth 4000 in
+theorem parm_setafAdd_raw (n : Int) : parm setafAdd (ints [n]) = [27, 91] ++ itoa (wrap64 (n + 30)) ++ [109] := by
+  simp [parm, ints, tparm, tparmV, setafAdd, run, step, execOp, pad9, put, popInt, hd0, isDigit, Value.toInt, binop, readInt, wrap64, two63, two64]
+set_option maxRecDepth 4000 in
+theorem parm_setabAdd_raw (n : Int) : parm setabAdd (ints [n]) = [27, 91] ++ itoa (wrap64 (n + 40)) ++ [109] := by
+  simp [parm, ints, tparm, tparmV, setabAdd, run, step, execOp, pad9, put, popInt, hd0, isDigit, Value.toInt, binop, readInt, wrap64, two63, two64]
+set_option maxRecDepth 8000 in
+theorem parm_setfgbgAdd_raw (f b : Int) :
+    parm setfgbgAdd (ints [f, b]) = [27, 91] ++ itoa (wrap64 (f + 30)) ++ [59] ++ itoa (wrap64 (b + 40)) ++ [109] := by
+  simp [parm, ints, tparm, tparmV, setfgbgAdd, run, step, execOp, pad9, put, popInt, hd0, isDigit, Value.toInt, binop, readInt, wrap64, two63, two64]
+
+theorem parm_setafAdd (n : Nat) (hn : n < 256) : parm setafAdd (ints [(n : Int)]) = csiSeq (dec (30 + n)) 0x6d := by
+  rw [parm_setafAdd_raw, wrap64_small _ (by omega) (by unfold maxInt64; omega)]
+  have e : (n : Int) + 30 = ((30 + n : Nat) : Int) := by omega
+  rw [e, itoa_nat]; simp [csiSeq]
+theorem parm_setabAdd (n : Nat) (hn : n < 256) : parm setabAdd (ints [(n : Int)]) = csiSeq (dec (40 + n)) 0x6d := by
+  rw [parm_setabAdd_raw, wrap64_small _ (by omega) (by unfold maxInt64; omega)]
+  have e : (n : Int) + 40 = ((40 + n : Nat) : Int) := by omega
+  rw [e, itoa_nat]; simp [csiSeq]
+theorem parm_setfgbgAdd (f b : Nat) (hf : f < 256) (hb : b < 256) :
+    parm setfgbgAdd (ints [(f : Int), (b : Int)]) = csiSeq (dec (30 + f) ++ 0x3b :: dec (40 + b)) 0x6d := by
+  rw [parm_setfgbgAdd_raw, wrap64_small _ (by omega) (by unfold maxInt64; omega), wrap64_small _ (by omega) (by unfold maxInt64; omega)]
+  have e : (f : Int) + 30 = ((30 + f : Nat) : Int) := by omega
+  have e' : (b : Int) + 40 = ((40 + b : Nat) : Int) := by omega
+  rw [e, e', itoa_nat, itoa_nat]; simp [csiSeq]
+
+set_option maxRecDepth 4000 in
+theorem parm_setafExt (n : Nat) : parm setafExt (ints [(n : Int)]) = csiSeq (Term.ext5 38 n) 0x6d := by
+  have : parm setafExt (ints [(n : Int)]) = [27,91,51,56,59,53,59] ++ itoa (n : Int) ++ [109] := by
+    simp [parm, ints, tparm, tparmV, setafExt, run, step, execOp, pad9, put, popInt, hd0, isDigit, Value.toInt]
+  rw [this, itoa_nat, ext5_38]; simp [csiSeq]
+set_option maxRecDepth 4000 in
+theorem parm_setabExt (n : Nat) : parm setabExt (ints [(n : Int)]) = csiSeq (Term.ext5 48 n) 0x6d := by
+  have : parm setabExt (ints [(n : Int)]) = [27,91,52,56,59,53,59] ++ itoa (n : Int) ++ [109] := by
+    simp [parm, ints, tparm, tparmV, setabExt, run, step, execOp, pad9, put, popInt, hd0, isDigit, Value.toInt]
+  rw [this, itoa_nat, ext5_48]; simp [csiSeq]
+set_option maxRecDepth 8000 in
+theorem parm_setfgbgExt (f b : Nat) :
+    parm setfgbgExt (ints [(f : Int), (b : Int)]) = csiSeq (Term.ext5 38 f ++ 0x3b :: Term.ext5 48 b) 0x6d := by
+  have : parm setfgbgExt (ints [(f : Int), (b : Int)]) =
+      [27,91,51,56,59,53,59] ++ itoa (f : Int) ++ [59,52,56,59,53,59] ++ itoa (b : Int) ++ [109] := by
+    simp [parm, ints, tparm, tparmV, setfgbgExt, run, step, execOp, pad9, put, popInt, hd0, isDigit, Value.toInt]
+  rw [this, itoa_nat, itoa_nat, ext5_38, ext5_48]; simp [csiSeq]
+
+/-- colon form of the extended palette selection: `38:5:n` -/
+def colon5 (which n : Nat) : List Nat := dec which ++ 0x3a :: 0x35 :: 0x3a :: dec n
+/-- `3n`, `9(n-8)` or `38:5:n` (foot) -/
+def idxBodyC (base bright which n : Nat) : List Nat :=
+  if n < 8 then dec (base + n) else if n < 16 then dec (bright + (n - 8)) else colon5 which n
+
+set_option maxRecDepth 8000 in
+theorem parm_setafColon_raw (n : Int) :
+    parm setafColon (ints [n]) =
+      [27,91] ++ (if n < 8 then 51 :: itoa n else if n < 16 then 57 :: itoa (wrap64 (n - 8))
+                  else [51,56,58,53,58] ++ itoa n) ++ [109] := by
+  by_cases h8 : n < 8
+  · simp [parm, ints, tparm, tparmV, setafColon, run, step, execOp, skipOp, pad9, put, popInt, hd0, isDigit, Value.toInt, binop, readInt, ofBool, h8, wrap64, two63, two64]
+  · by_cases h16 : n < 16
+    · simp [parm, ints, tparm, tparmV, setafColon, run, step, execOp, skipOp, pad9, put, popInt, hd0, isDigit, Value.toInt, binop, readInt, ofBool, h8, h16, wrap64, two63, two64]
+    · simp [parm, ints, tparm, tparmV, setafColon, run, step, execOp, skipOp, pad9, put, popInt, hd0, isDigit, Value.toInt, binop, readInt, ofBool, h8, h16, wrap64, two63, two64]
+
+set_option maxRecDepth 8000 in
+theorem parm_setabColon_raw (n : Int) :
+    parm setabColon (ints [n]) =
+      [27,91] ++ (if n < 8 then 52 :: itoa n else if n < 16 then 49 :: 48 :: itoa (wrap64 (n - 8))
+                  else [52,56,58,53,58] ++ itoa n) ++ [109] := by
+  by_cases h8 : n < 8
+  · simp [parm, ints, tparm, tparmV, setabColon, run, step, execOp, skipOp, pad9, put, popInt, hd0, isDigit, Value.toInt, binop, readInt, ofBool, h8, wrap64, two63, two64]
+  · by_cases h16 : n < 16
+    · simp [parm, ints, tparm, tparmV, setabColon, run, step, execOp, skipOp, pad9, put, popInt, hd0, isDigit, Value.toInt, binop, readInt, ofBool, h8, h16, wrap64, two63, two64]
+    · simp [parm, ints, tparm, tparmV, setabColon, run, step, execOp, skipOp, pad9, put, popInt, hd0, isDigit, Value.toInt, binop, readInt, ofBool, h8, h16, wrap64, two63, two64]
+
+set_option maxRecDepth 16000 in
+theorem parm_setfgbgColon_raw (f b : Int) :
+    parm setfgbgColon (ints [f, b]) =
+      [27,91] ++ (if f < 8 then 51 :: itoa f else if f < 16 then 57 :: itoa (wrap64 (f - 8))
+                  else [51,56,58,53,58] ++ itoa f) ++ [59] ++
+      (if b < 8 then 52 :: itoa b else if b < 16 then 49 :: 48 :: itoa (wrap64 (b - 8))
+                  else [52,56,58,53,58] ++ itoa b) ++ [109] := by
+  by_cases f8 : f < 8 <;> by_cases f16 : f < 16 <;> by_cases b8 : b < 8 <;> by_cases b16 : b < 16 <;>
+    first
+    | (exfalso; omega)
+    | simp [parm, ints, tparm, tparmV, setfgbgColon, run, step, execOp, skipOp, pad9, put, popInt, hd0, isDigit, Value.toInt,
+        binop, readInt, ofBool, f8, f16, b8, b16, wrap64, two63, two64]
+
+theorem colon5_38 (n : Nat) : colon5 38 n = [51,56,58,53,58] ++ dec n := by
+  have : dec 38 = [51, 56] := by decide
+  simp [colon5, this]
+theorem colon5_48 (n : Nat) : colon5 48 n = [52,56,58,53,58] ++ dec n := by
+  have : dec 48 = [52, 56] := by decide
+  simp [colon5, this]
+
+theorem fgPartC_eq (n : Nat) :
+    (if (n : Int) < 8 then 51 :: itoa (n : Int) else if (n : Int) < 16 then 57 :: itoa (wrap64 ((n : Int) - 8))
+      else [51,56,58,53,58] ++ itoa (n : Int)) = idxBodyC 30 90 38 n := by
+  unfold idxBodyC
+  by_cases h8 : n < 8
+  · have : (n : Int) < 8 := by omega
+    simp only [this, h8, if_true]; rw [itoa_nat, dec_30 n h8]
+  · by_cases h16 : n < 16
+    · have a : ¬ (n : Int) < 8 := by omega
+      have b : (n : Int) < 16 := by omega
+      simp only [a, b, h8, h16, if_true, if_false]
+      have e : (n : Int) - 8 = ((n - 8 : Nat) : Int) := by omega
+      rw [e, wrap64_small _ (by omega) (by unfold maxInt64; omega), itoa_nat, dec_90 _ (by omega)]
+    · have a : ¬ (n : Int) < 8 := by omega
+      have b : ¬ (n : Int) < 16 := by omega
+      simp only [a, b, h8, h16, if_false]; rw [itoa_nat, colon5_38]
+
+theorem bgPartC_eq (n : Nat) :
+    (if (n : Int) < 8 then 52 :: itoa (n : Int) else if (n : Int) < 16 then 49 :: 48 :: itoa (wrap64 ((n : Int) - 8))
+      else [52,56,58,53,58] ++ itoa (n : Int)) = idxBodyC 40 100 48 n := by
+  unfold idxBodyC
+  by_cases h8 : n < 8
+  · have : (n : Int) < 8 := by omega
+    simp only [this, h8, if_true]; rw [itoa_nat, dec_40 n h8]
+  · by_cases h16 : n < 16
+    · have a : ¬ (n : Int) < 8 := by omega
+      have b : (n : Int) < 16 := by omega
+      simp only [a, b, h8, h16, if_true, if_false]
+      have e : (n : Int) - 8 = ((n - 8 : Nat) : Int) := by omega
+      rw [e, wrap64_small _ (by omega) (by unfold maxInt64; omega), itoa_nat, dec_100 _ (by omega)]
+    · have a : ¬ (n : Int) < 8 := by omega
+      have b : ¬ (n : Int) < 16 := by omega
+      simp only [a, b, h8, h16, if_false]; rw [itoa_nat, colon5_48]
+
+theorem parm_setafColon (n : Nat) : parm setafColon (ints [(n : Int)]) = csiSeq (idxBodyC 30 90 38 n) 0x6d := by
+  rw [parm_setafColon_raw, fgPartC_eq]; simp [csiSeq]
+theorem parm_setabColon (n : Nat) : parm setabColon (ints [(n : Int)]) = csiSeq (idxBodyC 40 100 48 n) 0x6d := by
+  rw [parm_setabColon_raw, bgPartC_eq]; simp [csiSeq]
+theorem parm_setfgbgColon (f b : Nat) :
+    parm setfgbgColon (ints [(f : Int), (b : Int)]) = csiSeq (idxBodyC 30 90 38 f ++ 0x3b :: idxBodyC 40 100 48 b) 0x6d := by
+  rw [parm_setfgbgColon_raw, fgPartC_eq, bgPartC_eq]; simp [csiSeq]
+
 /-! ## the class -/
 
+/-- `sgr0` as written (padding removed): SGR reset in its spellings, with the character-set resets `ESC ( B` / SI that come
+    with it, `;10` (primary font) and the no-op `CSI " q` (DECSCA off, wy99) -/
 def attrOffForms : List Bytes :=
   [[27,40,66,27,91,109], [27,91,109,15], [27,91,109,27,40,66], [27,91,48,109,15], [27,91,109], [27,91,48,109],
-   [27,91,48,59,49,48,109]]
+   [27,91,48,59,49,48,109], [27,91,48,59,49,48,109,27,40,66], [27,91,109,15,27,91,34,113]]
 def clearForms : List Bytes := [[27,91,72,27,91,50,74], [27,91,72,27,91,74]]
+/-- `cnorm`: DECTCEM on, alone or with a blink / `34` / linux-console cursor setting -/
 def showForms : List Bytes :=
   [[27,91,63,50,53,104], [27,91,63,49,50,108,27,91,63,50,53,104], [27,91,51,52,104,27,91,63,50,53,104],
-   [27,91,63,49,50,104,27,91,63,50,53,104]]
+   [27,91,63,49,50,104,27,91,63,50,53,104], [27,91,63,50,53,104,27,91,63,48,99]]
 def hideStd : Bytes := [27,91,63,50,53,108]
+/-- `civis`: DECTCEM off, alone or followed by the linux console's `CSI ? 1 c` -/
+def hideForms : List Bytes := [hideStd, [27,91,63,50,53,108,27,91,63,49,99]]
 def sgr1 (n : Nat) : Bytes := [27,91,48 + n,109]
 def resetStd : Bytes := [27,91,51,57,59,52,57,109]
+/-- `op` of aixterm (`CSI 32 m CSI 40 m`) and pcansi (`CSI 37;40 m`): not a reset to the default colours — they SET colours -/
+def opAix : Bytes := [27,91,51,50,109,27,91,52,48,109]
+def opPc : Bytes := [27,91,51,55,59,52,48,109]
+def opForms : List Bytes := [resetStd, opAix, opPc]
 def ulStyleStd (s : Nat) : Bytes := [27,91,52,58,48 + s,109]
 def ulResetStd : Bytes := [27,91,53,57,109]
 def decscusr (n : Nat) : Bytes := [27,91,48 + n,32,113]
 def cursorStylesStd : List Bytes := [decscusr 0, decscusr 1, decscusr 2, decscusr 3, decscusr 4, decscusr 5, decscusr 6]
 
 def optForm (s std : Bytes) : Bool := s == [] || s == std
+/-- an optional attribute string: absent, or (once TPuts has removed its padding) the standard form -/
+def optSent (s std : Bytes) : Bool := s == [] || stripPadding s == std
 
-/-- the terminal description itself -/
-def tiOk (ti : Terminfo) : Bool :=
-  ti.setCursor == cupStd && attrOffForms.contains ti.attrOff && clearForms.contains ti.clear &&
-  showForms.contains ti.showCursor && ti.hideCursor == hideStd &&
-  ti.underline == sgr1 4 && ti.bold == sgr1 1 && ti.reverse == sgr1 7 &&
-  optForm ti.blink (sgr1 5) && optForm ti.dim (sgr1 2) && optForm ti.italic (sgr1 3) && optForm ti.strikeThrough (sgr1 9) &&
-  ((ti.colors == 8 && ti.setFg == setafBasic && ti.setBg == setabBasic && optForm ti.setFgBg setfgbgBasic) ||
-   (decide (8 ≤ ti.colors) && ti.setFg == setaf256 && ti.setBg == setab256 && optForm ti.setFgBg setfgbg256)) &&
-  ti.resetFgBg == resetStd &&
+/-- the palette strings of the class: (setaf, setab, setfgbg) families -/
+inductive PalKind | basic | add | cond | ext | colon
+  deriving DecidableEq, Repr
+
+def palKind (ti : Terminfo) : Option PalKind :=
+  if ti.colors == 8 && ti.setFg == setafBasic && ti.setBg == setabBasic && optForm ti.setFgBg setfgbgBasic then some .basic
+  else if ti.colors == 8 && ti.setFg == setafAdd && ti.setBg == setabAdd && optForm ti.setFgBg setfgbgAdd then some .add
+  else if decide (8 ≤ ti.colors) && ti.setFg == setaf256 && ti.setBg == setab256 && optForm ti.setFgBg setfgbg256 then some .cond
+  else if decide (8 ≤ ti.colors) && ti.setFg == setafExt && ti.setBg == setabExt && optForm ti.setFgBg setfgbgExt then some .ext
+  else if decide (8 ≤ ti.colors) && ti.setFg == setafColon && ti.setBg == setabColon && optForm ti.setFgBg setfgbgColon then some .colon
+  else none
+
+/-- a monochrome description: no colours and no colour string of any kind (nothing is ever written for a colour) -/
+def monoOk (ti : Terminfo) : Bool :=
+  ti.colors == 0 && ti.setFg == [] && ti.setBg == [] && ti.setFgBg == [] && ti.resetFgBg == [] &&
+  ti.setFgRGB == [] && ti.setBgRGB == [] && ti.setFgBgRGB == []
+
+/-- the capability strings of the terminal description -/
+def tiCapsOk (ti : Terminfo) : Bool :=
+  (cupPads.any fun p => ti.setCursor == cupStd ++ p) &&
+  attrOffForms.contains (stripPadding ti.attrOff) && clearForms.contains (stripPadding ti.clear) &&
+  -- cursor visibility: both strings in a standard form, or neither
+  ((showForms.contains (stripPadding ti.showCursor) && hideForms.contains (stripPadding ti.hideCursor)) ||
+   (ti.showCursor == [] && ti.hideCursor == [])) &&
+  stripPadding ti.underline == sgr1 4 && optSent ti.bold (sgr1 1) && optSent ti.reverse (sgr1 7) &&
+  optSent ti.blink (sgr1 5) && optSent ti.dim (sgr1 2) && optSent ti.italic (sgr1 3) && optSent ti.strikeThrough (sgr1 9) &&
+  -- colours: one of the palette families with `op` = `CSI 39;49 m` (or one of the two colour-setting `op`s), or none at all
+  (((palKind ti).isSome && opForms.contains ti.resetFgBg) || monoOk ti) &&
   optForm ti.setFgRGB setfRGB && optForm ti.setBgRGB setbRGB && optForm ti.setFgBgRGB setfbRGB &&
-  !(ti.autoMargin && ti.disableAutoMargin.isEmpty && !ti.insertChar.isEmpty) &&
   -- coherence of the direct-colour strings (all three or none; tcell sets them together, terminfo.go addTrueColor)
   (ti.setFgRGB.isEmpty == ti.setBgRGB.isEmpty) && (ti.setFgBgRGB.isEmpty || !ti.setFgRGB.isEmpty)
 
+/-- the terminal description itself: its strings, and the draw path does not use the bottom-right insert-character trick on it
+    (tscreen.go:815: automatic margins that cannot be switched off and an insert-character string) -/
+def tiOk (ti : Terminfo) : Bool :=
+  tiCapsOk ti && !(ti.autoMargin && ti.disableAutoMargin.isEmpty && !ti.insertChar.isEmpty)
+
 /-- the strings the screen constructor derives from it -/
 def dOk (d : Derived) : Bool :=
-  d.enterUrl == urlOpen && d.exitUrl == urlClose &&
+  -- hyperlinks: tcell's OSC 8 pair, or no hyperlink strings (entries without mouse / xterm flag, the linux console)
+  ((d.enterUrl == urlOpen && d.exitUrl == urlClose) || (d.enterUrl == [] && d.exitUrl == [])) &&
   optForm d.doubleUnder (ulStyleStd 2) && optForm d.curlyUnder (ulStyleStd 3) &&
   optForm d.dottedUnder (ulStyleStd 4) && optForm d.dashedUnder (ulStyleStd 5) &&
   optForm d.underColor ulIdx && optForm d.underRGB ulRGB && optForm d.underFg ulResetStd &&
@@ -348,8 +585,18 @@ def dOk (d : Derived) : Bool :=
   -- underline colour: indexed and direct form together or not at all (prepareUnderlines derives one from the other)
   (d.underRGB.isEmpty == d.underColor.isEmpty)
 
-/-- **the class of terminal descriptions Layer B is proved for**: every capability string the draw path uses is
-    one of the standard ECMA-48 / xterm forms listed above (or absent where the library tolerates that) -/
+/-- **the class of terminal descriptions Layer B is proved for**: every capability string the draw path uses is, once
+    TPuts has removed its padding, one of the standard ECMA-48 / xterm forms listed above — or absent where the library
+    tolerates that (no cursor-visibility strings, no bold / reverse / blink / dim / italic / strike-through, no colours, no
+    hyperlink, underline-style, underline-colour, cursor-style strings).  (The name is historical: the class started as the
+    xterm family and now holds every ECMA-48 entry of the database except the four that use the bottom-right insert-character
+    trick, see `Props.C01B.db_layerB`.) -/
 def XtermLike (ti : Terminfo) : Bool := tiOk ti && dOk (derive ti)
+
+/-- the class without the corner-trick condition: all that the per-command effects `CapsFx` depend on -/
+def CapsOk (ti : Terminfo) : Bool := tiCapsOk ti && dOk (derive ti)
+
+theorem capsOk_of_xl {ti : Terminfo} (h : XtermLike ti = true) : CapsOk ti = true := by
+  simp only [XtermLike, tiOk, CapsOk, Bool.and_eq_true] at h ⊢; exact ⟨h.1.1, h.2⟩
 
 end Tcell.LayerB
